@@ -288,3 +288,33 @@ def extract_file(path, std="gnu++17", flags=(), srcprefixes=None):
 def load(path):
     with open(path, "rb") as fh:
         return pickle.load(fh)
+
+
+def extract_matrix(driver, variants, jobs=16):
+    """Run ajx on one driver under many flag vectors.
+    variants: [(name, std, flags)] -> {name: dump dict}"""
+    ensure_tool()
+    os.makedirs(CACHE, exist_ok=True)
+    sh = src_hash()
+    unit = os.path.join(VERIF, "drivers", driver)
+    todo = []
+    outs = {}
+    for name, std, flags in variants:
+        tag = _sha(sh, driver, std, " ".join(flags))[:20]
+        out = os.path.join(CACHE, "fx-mx-%s-%s.json" % (driver.replace(".cpp", ""), tag))
+        outs[name] = out
+        if not os.path.exists(out):
+            todo.append((unit, std, list(flags), out, [SRC + "/"]))
+    if todo:
+        with ThreadPoolExecutor(max_workers=jobs) as ex:
+            res = list(ex.map(_run_unit, todo))
+        bad = [r for r in res if not r[1]]
+        if bad:
+            raise AnalysisBroken("ajx failed on %s:\n%s" % (bad[0][0], bad[0][2]))
+    result = {}
+    for name, out in outs.items():
+        with open(out) as fh:
+            d = json.load(fh)
+        d["config"] = name
+        result[name] = d
+    return result
